@@ -186,6 +186,17 @@ def scenario_for(seed, index, tier):
         first.pop('status', None)
         sc['prior'] = {'threshold': thr, 'conns': 1}
         sc['server']['conns'] = [first] + sc['server']['conns']
+    elif not sc.get('refuse_login') and rng.random() < 0.15:
+        # ... or for a plain status query with handlers of its own (a status
+        # query leaves the allowed versions alone): nothing of that query -
+        # its handlers in particular - belongs to the call under test
+        first = {'status': {'mode': 'reply', 'pong': True,
+                            'json': json.dumps({
+                                'version': {'protocol': 5, 'name': 'earlier'},
+                                'description': {'text': 'earlier query'}})}}
+        sc['prior'] = {'kind': 'status', 'conns': 1,
+                       'ping': rng.random() < 0.5}
+        sc['server']['conns'] = [first] + sc['server']['conns']
     return sc
 
 
@@ -310,7 +321,16 @@ def execute(scenario, tape):
 
         def user():
             if scenario.get('prior'):
-                st['prior_call'] = w.api('connect', conn.connect)
+                if scenario['prior'].get('kind') == 'status':
+                    st['prior_status_calls'] = []
+                    st['prior_ping_calls'] = []
+                    st['prior_call'] = w.api(
+                        'status', conn.status,
+                        handle_status=st['prior_status_calls'].append,
+                        handle_ping=(st['prior_ping_calls'].append
+                                     if scenario['prior']['ping'] else False))
+                else:
+                    st['prior_call'] = w.api('connect', conn.connect)
                 w.wait_until(
                     lambda: common.all_net_done(w.sim) and
                     (st['exits'] or st['errs']), 60000000)
@@ -393,7 +413,24 @@ def check(scenario, w, st, res):
         ob(3)
         n = scenario['prior']['conns']
         pr = st.get('prior') or {}
-        if not st['prior_call'].ok or pr.get('errs') or \
+        if scenario['prior'].get('kind') == 'status':
+            ob(2)
+            if not st['prior_call'].ok or pr.get('errs') or \
+                    len(pr.get('exits', ())) != 1 or len(apps) < n:
+                V.append(('C09/earlier-query-failed',
+                          {'errs': [repr(e)[:80]
+                                    for e in pr.get('errs', ())]}))
+                return
+            if len(st['prior_status_calls']) != 1 or \
+                    len(st['prior_ping_calls']) > 1:
+                V.append(('C09/earlier-query-s-handlers-called-again',
+                          {'status_handler_calls':
+                           len(st['prior_status_calls']),
+                           'ping_handler_calls':
+                           len(st['prior_ping_calls'])}))
+                return
+            res.probes['call-after-earlier-status-query'] = 1
+        elif not st['prior_call'].ok or pr.get('errs') or \
                 len(pr.get('exits', ())) != 1 or len(apps) < n or \
                 not apps[n - 1].reached_play:
             V.append(('C09/earlier-session-failed',
@@ -401,7 +438,8 @@ def check(scenario, w, st, res):
                        'conns': len(apps)}))
             return
         apps = apps[n:]
-        res.probes['call-after-compressed-session'] = 1
+        if scenario['prior'].get('kind') != 'status':
+            res.probes['call-after-compressed-session'] = 1
     base = len(w.server.apps) - len(apps)
     # number of TCP connections and their handshakes
     ob()
